@@ -3,8 +3,8 @@
    udp_forwarder.rs) for every operation history, with the environment's answers (socket can be
    opened, send succeeds, a reply or a socket error arrives, the timer ticks) as operations. *)
 From Coq Require Import List NArith Bool.
-From TT Require Import Lib.BytesL Generated.UdpFacts Generated.SocksFacts Model.UdpFlows Proofs.UdpFlowsProofs
-  Model.SocksFlows Proofs.SocksFlowsProofs.
+From TT Require Import Lib.BytesL Generated.UdpFacts Generated.SocksFacts Generated.TimeoutFacts Model.UdpFlows Proofs.UdpFlowsProofs
+  Model.SocksFlows Proofs.SocksFlowsProofs Model.UdpParked.
 Import ListNotations.
 Open Scope N_scope.
 
@@ -148,13 +148,38 @@ Example ex_each_flag_is_needed :
   /\ k_dead (krun kfixed [KDgram (1, 10); KReadErr 1; KDgram (1, 10); KRefused (1, 10); KCut (2, 10); KDgram (2, 10)]) = false.
 Proof. repeat split; reflexivity. Qed.
 
+(* "has its socket released, so the number of open sockets ... follow the number of live flows": the descriptors themselves.
+   A flow's socket (with a SOCKS5 upstream: its source's association) is held by the forwarder's table and, while the
+   reading side waits, by the futures it waits on (Model/UdpParked.v). With the wake-up that on_connection_closed sends
+   (as the code is read, for both forwarders), after every history of flows opened, flows closed by the pipe and events
+   on the reading side, a descriptor is open exactly when its flow is in the table, i.e. exactly when the gauge counts it *)
+Theorem open_descriptors_are_the_table :
+  forall ops k,
+    p_open (prun UDP_CLOSE_WAKES_THE_READING_SIDE ops) k = pmem k (p_table (prun UDP_CLOSE_WAKES_THE_READING_SIDE ops))
+    /\ p_open (prun SOCKS_CLOSE_WAKES_THE_READING_SIDE ops) k = pmem k (p_table (prun SOCKS_CLOSE_WAKES_THE_READING_SIDE ops)).
+Proof. intros ops k. split; apply woken_open_iff_in_table. Qed.
+Print Assumptions open_descriptors_are_the_table.
+
+(* as found (no wake-up): three flows are opened and expire while nothing else happens: the table is empty (the gauge
+   says 0) and all three descriptors are open; a single later event lets go of them *)
+Example ex_idle_multiplexer_kept_its_sockets :
+  let s := prun false [POpen 1; POpen 2; POpen 3; PClose 1; PClose 2; PClose 3] in
+  p_table s = [] /\ p_open s 1 = true /\ p_open s 2 = true /\ p_open s 3 = true
+  /\ p_held (prun false [POpen 1; POpen 2; POpen 3; PClose 1; PClose 2; PClose 3; PEvent]) = []
+  /\ p_held (prun true [POpen 1; POpen 2; POpen 3; PClose 1; PClose 2; PClose 3]) = [].
+Proof. repeat split; reflexivity. Qed.
+
 (* the tie: what the translator read in udp_pipe.rs / udp_forwarder.rs / socks5_forwarder.rs *)
 Theorem code_facts :
   UDP_TICK_CLOSES_REVERSED_KEY = true /\ UDP_TICK_EXPIRES_IDLE_LONGER_THAN_TIMEOUT = true
   /\ UDP_FAILED_OPEN_FORGETS_FLOW = true /\ UDP_DONE_AND_CLOSE_AS_MODELLED = true
   /\ UDP_SEND_ERROR_DROPS_DATAGRAM = true /\ UDP_FORWARDER_TABLE_AS_MODELLED = true
   /\ UDP_READ_ERRORS_REMOVE_THE_FLOW = true /\ SOCKS_UDP_READ_DOES_NOT_WAIT = true /\ SOCKS_ASSOCIATION_RECORDS_EVERY_PEER = true
-  /\ SOCKS_READ_ERROR_CLOSES_THE_FLOWS = true /\ SOCKS_SEND_ERROR_DROPS_DATAGRAM = true /\ UDP_TICK_RUNS_BESIDE_THE_DIRECTIONS = true.
+  /\ SOCKS_READ_ERROR_CLOSES_THE_FLOWS = true /\ SOCKS_SEND_ERROR_DROPS_DATAGRAM = true /\ UDP_TICK_RUNS_BESIDE_THE_DIRECTIONS = true
+  /\ UDP_CLOSE_WAKES_THE_READING_SIDE = true /\ SOCKS_CLOSE_WAKES_THE_READING_SIDE = true
+  (* the one place where opening a flow waits for somebody else (the SOCKS5 server), inside the only task that forwards
+     the client's datagrams, is bounded: a server that falls silent costs the other flows the establishment timeout at most *)
+  /\ UDP_ASSOCIATE_UNDER_ESTABLISHMENT_TIMEOUT = true.
 Proof. repeat split; exact eq_refl. Qed.
 Print Assumptions code_facts.
 
